@@ -238,6 +238,28 @@ pub fn catalogue(tier: Tier) -> Vec<(String, Option<bool>, String)> {
     out
 }
 
+/// characters of a path segment: identifier characters, characters std calls alphabetic / alphanumeric that
+/// are not XID_Start / XID_Continue (superscript two, circled one, fraction, combining iota, Hebrew point),
+/// XID characters outside ASCII, and the usual offenders
+pub const PATH_CHARS: [char; 16] = ['a', '1', '_', 'é', '²', '①', '¼', '\u{345}', '\u{5b0}', 'ⅷ', ' ', '<', '#', '.', '\'', '\u{200d}'];
+
+/// every path `m::<seg>` / `<seg>::f` with a segment of 1..=max_len PATH_CHARS, at every site a path can be written
+pub fn paths(tier: Tier) -> Vec<(String, Option<bool>, String)> {
+    let max_len = if tier == Tier::Quick { 2 } else { 3 };
+    let mut out = Vec::new();
+    for seg in refpeg::enumerate::strings(&PATH_CHARS, max_len).into_iter().skip(1) {
+        let shown: String = seg.escape_unicode().to_string();
+        for path in [format!("m::{seg}"), format!("{seg}::f"), seg.clone()] {
+            let why = format!("path segment {shown}");
+            out.push((format!("@check({path})\n@export Root = 'x' ;"), None, why.clone()));
+            out.push((format!("@export Root = c:C ;\n@check({path})\n@char C = 'x' ;"), None, why.clone()));
+            out.push((format!("@export Root = e:E ;\n@extern({path}) E ;"), None, why.clone()));
+            out.push((format!("@export Root = e:E ;\n@extern(m::f -> {path}) E ;"), None, why.clone()));
+        }
+    }
+    out
+}
+
 /// grammars that must be ACCEPTED (guards against "reject everything")
 pub fn must_accept() -> Vec<(String, Option<bool>, String)> {
     let mut out = Vec::new();
@@ -258,6 +280,7 @@ pub fn must_accept() -> Vec<(String, Option<bool>, String)> {
 fn family(name: &str, tier: Tier) -> Vec<(String, Option<bool>, String)> {
     match name {
         "mutations" => mutations(tier),
+        "paths" => paths(tier),
         "catalogue" => {
             let mut v = catalogue(tier);
             v.extend(must_accept());
@@ -501,6 +524,9 @@ fn routes(tier: Tier, cli: &str, st: &mut Stats, all_lines: &mut Vec<Value>) {
     let muts = mutations(Tier::Quick);
     let step = if tier == Tier::Quick { 97 } else { 11 };
     entries.extend(muts.into_iter().step_by(step));
+    // one-character path segments at every site
+    let npaths = 12 * PATH_CHARS.len();
+    entries.extend(paths(Tier::Quick).into_iter().take(npaths));
     // an unreadable grammar
     let exe = std::env::current_exe().unwrap();
     use rayon::prelude::*;
@@ -622,7 +648,7 @@ pub fn run(tier: Tier, cli: &str) {
     let mut lines: Vec<Value> = Vec::new();
     let nshards = 16;
     let mut fams = BTreeMapCount::default();
-    for fam in ["catalogue", "mutations", "tokens"] {
+    for fam in ["catalogue", "paths", "mutations", "tokens"] {
         let before = st.evaluations;
         run_family(fam, tier, nshards, &mut st, &mut lines);
         fams.0.push((fam.to_string(), family_len(fam, tier), st.evaluations - before));
